@@ -218,15 +218,27 @@ package server
 // ---- roaming fences (C20) -----------------------------------------------------
 //@ ghost macro roamIdMatch(fence, id) = ite(fence.roam.pattern, globMatches(fence.roam.id, id), fence.roam.id == id)
 //@ ghost macro roamOK(fence, obj, m) = m.id != objID(obj) && roamIdMatch(fence, m.id) && m.meters == gDistance(objGeo(obj), m.obj) && m.meters <= fence.roam.meters
+//@ ghost macro roamKeep(fence, obj, o) = objID(o) != objID(obj) && gDistance(objGeo(obj), objGeo(o)) <= fence.roam.meters && roamIdMatch(fence, objID(o))
+//@ ghost scratch visSeq []ref
+//@ ghost scratch visRect ref
 // every reported neighbour is another object, matches the id pattern, carries the true distance between the two
 // objects, and that distance does not exceed the radius
 //@ func fenceMatchNearbys
+//@   forward-seq
+//@   no-merge
 //@   requires s != nil && s.cols != nil && fence != nil
 //@   modifies steps
 //@   frame-by-effects
 //@   ensures [within-radius] forall(k, 0, len(nearbys), roamOK(fence, obj, nearbys[k]))
 //@   loop 1 invariant forall(k, 0, len(nearbys), roamOK(fence, obj, nearbys[k]))
 //@   ensures [model.allocated] forall(k, 0, len(nearbys), allocated(refof(nearbys[k])))
+// and none is left out: every object the rectangle search visits that is another object, within the radius and matching
+// the id pattern is reported (that the rectangle holds every object within the radius is geometry, not decided)
+//@   set-at-call Collection.Intersects#1 visSeq = fromOff(geoSeqObj(col, arg0), nil)
+//@   set-at-call Collection.Intersects#1 visRect = arg0
+//@   loop 1 invariant [complete] forall(m, 0, idx1, gIntersects(objGeo(seq1[m]), visRect) && roamKeep(fence, obj, seq1[m]) ==> rmInL(nearbys, objID(seq1[m]), objGeo(seq1[m])))
+//@   loop 1 invariant [same-seq] seq1 == visSeq
+//@   at-return [complete] obj != nil && col != nil ==> forall(m, 0, len(visSeq), gIntersects(objGeo(visSeq[m]), visRect) && roamKeep(fence, obj, visSeq[m]) ==> rmInL(nearbys, objID(visSeq[m]), objGeo(visSeq[m])))
 //@   loop 1 invariant [model.allocated] forall(k, 0, len(nearbys), allocated(refof(nearbys[k])))
 
 // Roaming fence, old-vs-new neighbour sets (C20). oldN0/newN0 are the two neighbour lists as fenceMatchNearbys returned
